@@ -172,3 +172,40 @@ func VerifC20BaseOnce() {
 	vAssert(r1 == a1-bias && r2 == a2-bias, "C20.baseonce.addr: concurrent ObjAddr results differ from the sequential ones")
 	vAssert(opens == 1, "C20.baseonce.twice: the base was computed more than once")
 }
+
+func init() { vRegister("VerifC13LLVM", VerifC13LLVM) }
+
+// vFakeLLVM stands for the llvm-symbolizer process: it records the queries and answers one fixed frame.
+type vFakeLLVM struct {
+	queries []string
+}
+
+func (f *vFakeLLVM) write(s string) error { f.queries = append(f.queries, s); return nil }
+func (f *vFakeLLVM) readLine() (string, error) {
+	return `{"Address":"0x10","ModuleName":"bin","Symbol":[{"Line":3,"Column":1,"FunctionName":"f","FileName":"f.c","StartLine":2}]}`, nil
+}
+func (f *vFakeLLVM) close() {}
+
+// VerifC13LLVM: the llvm-symbolizer wrapper asks for the object address
+// addr - base (modulo 2^64: objects loaded below their link address have a
+// wrapped base) for every address and load base, and returns the frames it
+// is given.
+func VerifC13LLVM() {
+	addr, base := vUint64("addr"), vUint64("base")
+	fake := &vFakeLLVM{}
+	d := &llvmSymbolizer{filename: "bin", rw: fake, base: base}
+	frames, err := d.addrInfo(addr)
+	vReach("C13.llvm:asked")
+	vAssert(err == nil, "C13.llvm.error: the symbolizer wrapper failed for an address")
+	if len(fake.queries) != 1 {
+		vAssert(false, "C13.llvm.query: not exactly one query was sent for the address")
+		return
+	}
+	want := "bin 0x" + strconv.FormatUint(addr-base, 16)
+	vAssert(vStrEq(fake.queries[0], want), "C13.llvm.query: the address sent to llvm-symbolizer is not addr - base")
+	ok := len(frames) == 1
+	if ok {
+		ok = frames[0].Func == "f" && frames[0].File == "f.c" && frames[0].Line == 3
+	}
+	vAssert(ok, "C13.llvm.frames: the frames answered by the symbolizer were not returned")
+}
